@@ -81,6 +81,8 @@ def run(ctx):
     ok = ctx.lean(['AmcVerif.Props.C13'])
     pairs = PAIRS_QUICK + (PAIRS_MORE if ctx.tier == 'thorough' or not ok else [])
     total = 0
+    # build every pair's harness in one parallel batch (the per-pair runs below then hit the cache)
+    V.build([V.VecCfg(a[0], a[1], a[2], a[3], alloc=a[4], pool=1, partner=b, pool2=1) for a, b in pairs])
     for a, b in pairs:
         cfg = V.VecCfg(a[0], a[1], a[2], a[3], alloc=a[4], pool=1, partner=b, pool2=1)
         scripts = gen_all(cfg)
